@@ -195,6 +195,17 @@ class Model:
                     answers[idx] = json.loads(results[i][k])
                 except (ValueError, IndexError):
                     answers[idx] = {"driver_error": results[i][k] if k < len(results[i]) else "missing"}
+        # a driver process that died (killed under memory pressure, ...) loses the rest of its shard:
+        # re-run those requests one by one in fresh processes before reporting a driver error
+        for idx, a in enumerate(answers):
+            if isinstance(a, dict) and "driver_error" in a:
+                p = subprocess.run([DRIVER], input=lines[idx] + "\n", capture_output=True, text=True)
+                out = p.stdout.split("\n")[0]
+                try:
+                    answers[idx] = json.loads(out)
+                    self.raw[idx] = out
+                except ValueError:
+                    answers[idx] = {"driver_error": out or ("exit status %s" % p.returncode)}
         return answers
 
 
